@@ -14,6 +14,85 @@ TEXT = {
         level_note="Trusted: harness/ref tokenizer and the model in harness/gen. The known finding 'trailer-fields-dropped' (KNOWN_FINDINGS.jsonl) is reported as KNOWN-FINDING and the remaining comparison continues without the trailer leaves.",
         design_ref="DESIGN.md section 4, C17",
     ),
+    "C02": dict(
+        technique="property-based testing (rapid): serialize/parse round trip judged against the generated model, leaf by leaf, plus re-serialization equality",
+        level_text="Exploration: generated templates (nesting to depth 4, groups in group entries, components, every value type, decoy strings, all tests/fix44 types) are serialized, parsed by encoding.Unmarshal and by DefaultUnmarshaller{Strict:false} into a fresh message, every leaf compared with the generated value (ints exact, floats bit-exact, UTC times, bytes), group entry counts and order, and the parsed message re-serialized to the identical bytes.",
+        level_note="Trusted: the model/compare code in harness/gen and harness/build. C02's preconditions hold by construction; tests/fix44 MarketDataSnapshotFullRefresh is skipped because its generated group type repeats tags of the message (consequence of the generator finding recorded under C12).",
+        design_ref="DESIGN.md section 4, C02",
+    ),
+    "C03": dict(
+        technique="property-based generation of base messages x exhaustive enumeration of each base's single-byte damage neighbourhood; oracle: accepted implies independently confirmed framing",
+        engine="rapid",
+        level_text="Fault enumeration: for every generated base message (including adversarial ones that carry a decoy CheckSum in a value, with a padding byte solved so that one substitution makes the decoy self-consistent) ALL substitutions, insertions, deletions and proper prefixes are offered to both parser entry points; any accepted variant must be confirmed framed by the independent reference. Complete per base message, sampled over base messages.",
+        level_note="Trusted: harness/ref framing checker. Variants that remain consistently framed (NUL inserted into / deleted from the BeginString value) are valid messages; they are counted (still_framed_variants) and may be accepted.",
+        design_ref="DESIGN.md section 4, C03",
+    ),
+    "C06": dict(
+        technique="stateful property-based testing (rapid histories) against the real session in a synctest bubble; history monitor as oracle",
+        level_text="Exploration: inbound histories with every class of Logon (interval below/at/inside/at/above limits, non-numeric, absent; method allowed/disallowed/absent; credentials approved/refused; damaged) mixed with all other traffic and local actions are fed to handler+session of both roles; after every step the monitor checks IsLogged against a model of which acceptable Logon is in force, the Logon answer's echo of interval and method, exactly one Reject with RefSeqNum/RefTagID otherwise, EventLogon counts, and the initiator's first message.",
+        level_note="Trusted: testing/synctest (virtual clock, Wait for quiescence) and the monitor. Histories keep idle time below the smallest negotiable interval so that timers do not act.",
+        design_ref="DESIGN.md section 4, C06",
+    ),
+    "C07": dict(
+        technique="stateful property-based testing (rapid histories without an acceptable Logon, pre-populated shared store); invariant over emitted message types",
+        level_text="Exploration: histories that by construction never contain an acceptable Logon (resend requests over all ranges, test requests, heartbeats, logouts, refused/damaged Logons, application/unknown types, idle minutes) against an empty store and a store holding an earlier session's messages; every emitted message must be Logon, Logout or Reject and none may equal a stored message of the other session.",
+        level_note="Trusted: synctest and the type whitelist. The parallel-session variant (store being written while the unauthenticated connection runs) is not generated.",
+        design_ref="DESIGN.md section 4, C07",
+    ),
+    "C08": dict(
+        technique="property-based testing (rapid timing patterns) on a virtual clock (testing/synctest); gap bounds as oracle",
+        level_text="Exploration: send/TestRequest instants are generated relative to heartbeat deadlines (just before, at, just after, N/10 around, bursts, long idle) for N in 1..120 over up to 40 periods of virtual time; all outbound gaps must be <= N+N/10 and unsolicited Heartbeats >= N after the previous outbound message. No wall-clock thresholds.",
+        level_note="Trusted: synctest's virtual time. Single logon per history.",
+        design_ref="DESIGN.md section 4, C08",
+    ),
+    "C09": dict(
+        technique="property-based testing (rapid arrival patterns) on a virtual clock; deadline windows as oracle",
+        level_text="Exploration: silence / late / answered / steady inbound patterns for N in 1..120; the monitor recomputes from the inbound instants when a TestRequest must and must not be sent and when the disconnect event and handler stop must and must not happen, with windows [T, T+T/10].",
+        level_note="Trusted: synctest's virtual time. Socket closing is observed in C13's full rig, not here.",
+        design_ref="DESIGN.md section 4, C09",
+    ),
+    "C10": dict(
+        technique="stateful property-based testing (rapid): recorded first transmissions as reference model for retransmissions; small-number enumeration of (stored, received) Logon sequence numbers",
+        level_text="Exploration: outbound prefixes of mixed administrative and application messages followed by ResendRequests over all range classes; emitted retransmissions are compared byte for byte with the recorded first transmission of the same number, must lie in the requested range and must be complete for ranges inside the sent range (e=0: through the last). A second engine checks the gap ResendRequest on Logon for (c,r) pairs.",
+        level_note="Trusted: synctest and the recorder. Known finding resend-wrong:reused-object (application reuses a message object) is reported as KNOWN-FINDING; all other mismatches are violations.",
+        design_ref="DESIGN.md section 4, C10",
+    ),
+    "C11": dict(
+        technique="property-based fuzzing (rapid): unstructured and structure-aware hostile inputs, framed by an independent assembler so that they pass the integrity check; oracle: returns without panic within a watchdog",
+        level_text="Exploration: raw byte strings of eight classes and correctly framed hostile token lists (random, and near-valid populations with token-level damage) are parsed into generated nested-group templates and every tests/fix44 type by both entry points, and looked up with fix.ValueByTag, with slices presented capacity-clamped and as prefixes of larger buffers.",
+        level_note="Trusted: recover() observes every panic on the calling goroutine; a 20 s per-call watchdog defines 'hang'. The session inbound path is exercised by the session checks (a panic in handler.Run is a violation there: key inbound-panic).",
+        design_ref="DESIGN.md section 4, C11",
+    ),
+    "C14": dict(
+        technique="stateful property-based testing (rapid): echo equality and answer order in bursts, real session in a synctest bubble",
+        level_text="Exploration: TestReqIDs of 1-5000 arbitrary non-SOH bytes (decoys included) at arbitrary positions of logged-on histories and in bursts delivered without waiting; exactly one fresh Heartbeat per request with the identical ID, in request order, before Rejects of later inbound messages.",
+        level_note="Trusted: synctest; retransmissions are recognised by their sequence number and excluded.",
+        design_ref="DESIGN.md section 4, C14",
+    ),
+    "C15": dict(
+        technique="property-based testing (rapid) on a virtual clock: Logout counts and the exact instant of context cancellation",
+        level_text="Exploration: peer logout, local logout + answer, and Stop with close timeout {0,1ms,1s,30s} x answer {never, immediately, half, just before, after the deadline} with traffic in between; the cancellation instant is compared to the nanosecond with min(answer, deadline).",
+        level_note="Trusted: synctest's virtual time; intervals >= 40 s keep the session timers out of these histories.",
+        design_ref="DESIGN.md section 4, C15",
+    ),
+    "C16": dict(
+        technique="table-driven property-based testing (rapid surroundings around an enumerated (type, damage, state) table); REF-assembled damaged messages",
+        level_text="Exploration: each cell of {5 admin types} x {8 kinds of invalidity} x {3 states} is drawn with generated surroundings; exactly one Reject referencing the offender, IsLogged unchanged, nothing stopped, next valid message handled normally.",
+        level_note="Trusted: synctest and harness/ref (which produces exactly the intended damage).",
+        design_ref="DESIGN.md section 4, C16",
+    ),
+    "C18": dict(
+        technique="property-based differential testing (rapid): fix.ValueByTag vs an independent tokenizing lookup; unmarshal-vs-model on REF-assembled messages with decoys and affix-related foreign tags",
+        level_text="Exploration: correctly framed messages over templates whose tag pools contain decimal prefix/suffix families, with values 't=..' for template tags and foreign fields 1146/14/1461/46-style at field boundaries; (a) lookups of all template tags and affix variants must agree with the reference, (b) parsing must yield exactly the model.",
+        level_note="Trusted: harness/ref. Transport-level (c) and session-level (d) boundary recognition are covered by the C04 and session checks where built.",
+        design_ref="DESIGN.md section 4, C18",
+    ),
+    "C19": dict(
+        technique="stateful property-based testing with fault injection (rapid): recording/failing store and handlers; invariants over a globally ordered event log",
+        level_text="Exploration: generated handler sets (order, type, refusal pattern, registered before/after the session) and store failures; per message: Save-before-wire, handler order, stop at refusal, bytes seen = bytes sent, Send's error result; per inbound message: all-types then own-type handlers in registration order.",
+        level_note="Trusted: the event log's global order (one mutex) and synctest. Incoming handlers always accept.",
+        design_ref="DESIGN.md section 4, C19",
+    ),
 }
 
 _claimed = set(TEXT)
